@@ -883,9 +883,13 @@ func compare(t, g obs) string {
 			}
 		}
 	}
-	for i := range t.batches {
-		if t.batches[i].genBad || g.batches[i].genBad {
-			return "generated-time-not-uniform"
+	// "all rows share one generated value" is a property of ONE columnar record; row-format items each take
+	// their own clock reading in either mode, so it is judged only when the fast path produced the record.
+	if t.typedHit {
+		for i := range t.batches {
+			if t.batches[i].genBad || g.batches[i].genBad {
+				return "generated-time-not-uniform"
+			}
 		}
 	}
 	if ta && ga {
@@ -1036,6 +1040,7 @@ func intArr(n int) *node {
 type base struct {
 	fam  string
 	lvl  int // length of the enumerated sequence that produced it
+	over int // oversize-header variants: 0 never, 1 quick and thorough, 2 thorough only
 	body []byte
 }
 
@@ -1050,8 +1055,22 @@ func (g *generator) add(fam string, lvl int, n *node) {
 	if _, dup := g.seen[string(b)]; dup {
 		return
 	}
+	defer func() {
+		last := &g.bases[len(g.bases)-1]
+		switch {
+		case strings.HasPrefix(fam, "F6:"):
+			if fam == "F6:plain" {
+				last.over = 1
+			} else if lvl == 0 {
+				last.over = 2
+			}
+		case strings.HasPrefix(fam, "F1:value-array") && lvl == 1, strings.HasPrefix(fam, "F4:") && lvl <= 1,
+			strings.HasPrefix(fam, "F3:") && lvl <= 1, strings.HasPrefix(fam, "F5:") && lvl <= 1, strings.HasPrefix(fam, "F2:") && lvl == 1:
+			last.over = 2
+		}
+	}()
 	g.seen[string(b)] = struct{}{}
-	g.bases = append(g.bases, base{fam, lvl, b})
+	g.bases = append(g.bases, base{fam, lvl, 0, b})
 	g.fam[fam]++
 }
 
@@ -1226,7 +1245,11 @@ func generate(quick bool) *generator {
 						}
 						for _, mv := range []*node{fixstr("c"), str16("c"), str32("c")} {
 							for _, val := range []*node{pfix(1), fixstr("a"), f32(2.5)} {
-								g.add("F6:widths", tw+cw+aw, MW(tw, ks[0], mv, ks[1], MW(cw, ks[2], AW(aw, u32(t0s)), ks[3], AW(aw, val))))
+								fam := "F6:widths"
+								if which == -1 && tw+cw+aw == 0 && mv.b[0] == 0xa1 {
+									fam = "F6:plain"
+								}
+								g.add(fam, 100*max3(tw, cw, aw)+tw+cw+aw, MW(tw, ks[0], mv, ks[1], MW(cw, ks[2], AW(aw, u32(t0s)), ks[3], AW(aw, val))))
 							}
 						}
 					}
@@ -1247,9 +1270,10 @@ func generate(quick bool) *generator {
 	return g
 }
 
-// (array16 rather than array32 among the substitutions: a random 32-bit count makes the generic decoder
-// allocate its 1M-element cap per case; the 0xFFFFFFFF headers are exercised by the oversize-header variants)
-var substitutions = []byte{0x00, 0x01, 0x80, 0x81, 0x91, 0xa1, 0xc0, 0xc1, 0xc4, 0xd4, 0xdc, 0xff}
+// No array16/32 or map16/32 code is in the set: a random 16/32-bit count makes the generic decoder allocate up
+// to its 1M-element cap per case, and first-touch memory is extremely slow in the sandbox. The wide headers are
+// exercised by family F6 and by the oversize-header variants instead.
+var substitutions = []byte{0x00, 0x01, 0x80, 0x81, 0x91, 0xa1, 0xc0, 0xc1, 0xc4, 0xcb, 0xd4, 0xff}
 var trailers = [][]byte{{0x00}, {0xc1}, {0xc0, 0xc0}, {0x81, 0xa1, 0x6d, 0xa1, 0x7a}}
 
 const maxMutLen = 40
@@ -1446,6 +1470,90 @@ func candidates(s tstate) []tstate {
 	return out
 }
 
+// normalisations are tried only at a removal/replacement fixpoint; they do not shrink the body, they move it
+// to a canonical representative: (a) every string other than the protocol words renamed, in order of first
+// appearance, to a, b, c...; (b) the pairs of every map sorted by encoded key (stable, so duplicate keys keep
+// their relative order). Each is kept only if the same difference persists.
+var protocolWords = map[string]bool{"m": true, "columns": true, "time": true, "batch": true, "t": true, "h": true, "f": true, "fields": true, "tags": true}
+
+func fixstrVal(n *node) (string, bool) {
+	if n.k == 'L' && n.b[0] >= 0xa0 && n.b[0] <= 0xbf {
+		return string(n.b[1:]), true
+	}
+	return "", false
+}
+
+func mapTree(n *node, f func(*node) *node) *node {
+	if n.k == 'L' {
+		return f(n)
+	}
+	kids := make([]*node, len(n.kids))
+	for i, k := range n.kids {
+		kids[i] = mapTree(k, f)
+	}
+	return f(n.with(kids))
+}
+
+func normalisations(s tstate) []tstate {
+	var out []tstate
+	// (a) rename
+	var order []string
+	seen := map[string]bool{}
+	mapTree(s.root, func(n *node) *node {
+		if v, ok := fixstrVal(n); ok && !protocolWords[v] && !seen[v] {
+			seen[v] = true
+			order = append(order, v)
+		}
+		return n
+	})
+	if len(order) <= 20 {
+		ren := map[string]string{}
+		for i, v := range order {
+			ren[v] = string(rune('a' + i))
+		}
+		changed := false
+		r := mapTree(s.root, func(n *node) *node {
+			if v, ok := fixstrVal(n); ok {
+				if nv, ok := ren[v]; ok && nv != v {
+					changed = true
+					return fixstr(nv)
+				}
+			}
+			return n
+		})
+		if changed {
+			out = append(out, tstate{r, s.rest})
+		}
+	}
+	// (b) sort pairs
+	changed := false
+	r := mapTree(s.root, func(n *node) *node {
+		if n.k != 'M' || len(n.kids) < 4 {
+			return n
+		}
+		type pr struct{ k, v *node }
+		var ps []pr
+		for i := 0; i+1 < len(n.kids); i += 2 {
+			ps = append(ps, pr{n.kids[i], n.kids[i+1]})
+		}
+		sorted := sort.SliceIsSorted(ps, func(i, j int) bool { return bytes.Compare(encode(ps[i].k), encode(ps[j].k)) < 0 })
+		if sorted {
+			return n
+		}
+		sort.SliceStable(ps, func(i, j int) bool { return bytes.Compare(encode(ps[i].k), encode(ps[j].k)) < 0 })
+		kids := make([]*node, 0, len(n.kids))
+		for _, p := range ps {
+			kids = append(kids, p.k, p.v)
+		}
+		changed = true
+		return n.with(kids)
+	})
+	if changed {
+		out = append(out, tstate{r, s.rest})
+	}
+	return out
+}
+
 // byte-level ddmin for bodies that are not well-formed msgpack
 func byteMin(body []byte, fails func([]byte) bool) []byte {
 	idx := make([]int, len(body))
@@ -1535,6 +1643,16 @@ func (m *minimiser) minimise(body []byte, kind string, deep bool) []byte {
 				st = c
 				progressed = true
 				break
+			}
+		}
+		if !progressed {
+			for _, c := range normalisations(st) {
+				cb := c.bytes()
+				if !bytes.Equal(cb, cur) && kindOf(cb) == kind {
+					st = c
+					progressed = true
+					break
+				}
 			}
 		}
 		if !progressed {
@@ -1725,6 +1843,10 @@ func main() {
 					mutations(b.body, overEligible(b, quick), func(kind string, mb []byte) {
 						t0 := time.Now()
 						defer func() { localMut["ns:"+kind+":"+b.fam[:2]] += int64(time.Since(t0)) }()
+						if kind == "oversize-header" {
+							overMu.Lock()
+							defer overMu.Unlock()
+						}
 						mv := w.eval(mb, false)
 						atomic.AddInt64(&evals, 1)
 						atomic.AddInt64(&mutEvals, 1)
@@ -1755,7 +1877,7 @@ func main() {
 				fmt.Printf("  %-40s %d\n", k, mutKinds[k])
 			}
 		}
-		fmt.Printf("  explore wall %.1fs, raw failures %d\n", time.Since(tStart).Seconds(), len(fails))
+		fmt.Printf("  explore wall %.1fs, raw failures %d, mutation bases %d\n", time.Since(tStart).Seconds(), len(fails), mutBases)
 	}
 	for k := range mutKinds {
 		if strings.HasPrefix(k, "ns:") {
@@ -1816,6 +1938,9 @@ func main() {
 	}
 	wg.Wait()
 
+	if os.Getenv("VERIF_DEBUG") != "" {
+		fmt.Printf("  minimised at %.1fs, %d evals\n", time.Since(tStart).Seconds(), minEvals)
+	}
 	sigs := make([]string, 0, len(classes))
 	for s := range classes {
 		sigs = append(sigs, s)
@@ -1857,7 +1982,7 @@ func main() {
 	run.Coverage["rule"] = "payload trees enumerated exhaustively per family (F1 value arrays len<=3 over one representative per msgpack encoding; F2 time arrays over unit-boundary values x encodings; " +
 		"F3 every sequence of top-level key/value pairs up to the bound incl. duplicates and non-string keys; F4 every sequence of <=3 column entries over names {time,v,\"\",_x} x {arrays, empty array, non-arrays}; " +
 		"F5 array-of-maps and batch up to 3 items; F6 every header/key width; F7 row format), hand-encoded; then for every distinct encoding <=40 B selected for mutation: every truncation, 4 trailing suffixes, " +
-		"every header replaced by a 32-bit 0xFFFFFFFF header, every single-byte substitution from {00,01,80,81,91,a1,c0,c1,c4,d4,dc,ff}. Each body decoded with typedEnabled on and off and written with the real ArrowBuffer.Write. " +
+		"every header replaced by a 32-bit 0xFFFFFFFF header, every single-byte substitution from {00,01,80,81,91,a1,c0,c1,c4,cb,d4,ff}. Each body decoded with typedEnabled on and off and written with the real ArrowBuffer.Write. " +
 		"distinct = distinct byte strings among the tree encodings; non-trivial = the typed fast path returned a TypedColumnarRecord for it (the two runs executed different code)"
 	run.Coverage["tree_payloads_distinct"] = len(gen.bases)
 	run.Coverage["tree_payloads_by_family"] = famCounts
@@ -1915,18 +2040,31 @@ func obsJSON(o obs) map[string]any {
 func mutEligible(b base, quick bool) bool {
 	if quick {
 		switch {
-		case strings.HasPrefix(b.fam, "F1:value-array"), strings.HasPrefix(b.fam, "F2:"):
-			return len(b.body) <= 32
+		case b.fam == "F1:value-array":
+			return b.lvl <= 2
+		case strings.HasPrefix(b.fam, "F1:"):
+			return b.lvl <= 1
+		case b.fam == "F2:time-array":
+			return b.lvl <= 1 || (b.lvl == 2 && len(b.body) <= 30)
+		case strings.HasPrefix(b.fam, "F2:"):
+			return true
 		case strings.HasPrefix(b.fam, "F3:"):
-			return len(b.body) <= 24
+			return b.lvl <= 2
+		case b.fam == "F4:columns-map":
+			return b.lvl <= 2
 		case strings.HasPrefix(b.fam, "F4:"):
-			return len(b.body) <= 22
-		case strings.HasPrefix(b.fam, "F5:"), strings.HasPrefix(b.fam, "F7:"):
-			return len(b.body) <= 30
+			return b.lvl <= 1
+		case strings.HasPrefix(b.fam, "F5:"):
+			return b.lvl <= 2
 		case strings.HasPrefix(b.fam, "F6:"):
-			return len(b.body) <= 30
+			return b.lvl < 100 // fix headers only
+		case strings.HasPrefix(b.fam, "F7:"):
+			return true
 		}
 		return false
+	}
+	if strings.HasPrefix(b.fam, "F6:") {
+		return b.lvl < 200
 	}
 	switch {
 	case strings.HasPrefix(b.fam, "F3:"):
@@ -1938,17 +2076,25 @@ func mutEligible(b base, quick bool) bool {
 }
 
 // overEligible selects the bases whose headers are also replaced by 0xFFFFFFFF 32-bit headers. Each such
-// body makes the generic decoder allocate its 1M-element cap (tens of ms), so the set is kept structural
-// and small: the shortest sequences of every family.
+// body makes the generic decoder allocate its 1M-element cap (first-touch memory costs ~0.1 ms per page in
+// the sandbox: 0.03-10 s per case), so the set is structural and small and the cases run one at a time.
 func overEligible(b base, quick bool) bool {
-	max := 1
-	if !quick {
-		max = 2
+	if quick {
+		return b.over == 1
 	}
-	if strings.HasPrefix(b.fam, "F6:") {
-		return b.lvl == 0
-	}
-	return b.lvl <= max
+	return b.over >= 1
 }
+
+func max3(a, b, c int) int {
+	if b > a {
+		a = b
+	}
+	if c > a {
+		a = c
+	}
+	return a
+}
+
+var overMu sync.Mutex
 
 var _ = binary.BigEndian
